@@ -515,7 +515,7 @@ Fixpoint clock_from (jwt : bool) (cfg : config) (cls : list client) (t : Z) (npr
 Definition monitor_C07 (c : hcase) : option string := clock_from (is_jwt_case c) (case_cfg c) (case_clients c) 0%Z 0 (impl_trace c).
 
 (* ------------------------------------------------------------------ C16 *)
-Definition judge_C16 (cfg : config) : judge_t := fun m o ob pr =>
+Definition judge_C16 (cfg : config) (contract : bool) : judge_t := fun m o ob pr =>
   match o with
   | ODevicePoll auth dev =>
       match cred m dev with
@@ -530,6 +530,9 @@ Definition judge_C16 (cfg : config) : judge_t := fun m o ob pr =>
             else if expired_ then (Some "tokens_issued_after_device_code_expiry", [], [])
             else if p_tampered dev then (Some "tampered_device_code_accepted", [], [])
             else if list_eqb (o_scopes ob) (ci_scopes c) then (None, [], []) else (Some "device_tokens_scope_differs_from_decision", [], [])
+          else if contract && granted_ && negb (p_tampered dev) && memn i (m_redeemed m) then
+            (* the store reports the device code as already used: the tokens issued from it are revoked *)
+            if String.eqb (o_err ob) "invalid_grant" then (None, [ci_family c], []) else (Some "replayed_device_code_not_answered_invalid_grant", [], [])
           else if granted_ && negb (p_tampered dev) && negb (memn i (m_redeemed m)) then
             (* the listed verdict is required when only its condition applies *)
             if owner_ && negb expired_ && Nat.eqb (ci_decision c) 0 && negb (String.eqb (o_err ob) "authorization_pending")
@@ -657,5 +660,5 @@ Definition check_C05 := check_with (fun c => first_some (monitor (judge_C05 (cas
 Definition check_C07 := check_with monitor_C07.
 Definition check_C08 := check_with (monitor judge_C08).
 Definition check_C09 := check_with (fun c => first_some (monitor (judge_C09 (case_cfg c)) c) (payload_monitor c)).
-Definition check_C16 := check_with (fun c => first_some (monitor (judge_C16 (case_cfg c)) c) (payload_monitor c)).
+Definition check_C16 := check_with (fun c => first_some (monitor (judge_C16 (case_cfg c) (is_contract_case c)) c) (payload_monitor c)).
 Definition check_C17 := check_with (fun c => monitor (judge_C17 (case_cfg c)) c).
